@@ -4,6 +4,7 @@ Property theorems only; helper lemmas live in `SC/Lemmas`.
 -/
 import SC.Lemmas.Tree
 import SC.Lemmas.Seq
+import SC.Lemmas.Invariant
 import SC.Table
 import SC.Generated.Tables
 namespace SC.Props
@@ -79,5 +80,75 @@ theorem C11_rejected_changes_nothing (s : State) (h : Handle) (op : Op) (oi : Na
     (hv : preValidate (s.fam o) t0.isDict op = some e) :
     call s h op = (s, .error e) :=
   call_prevalidate_reject s h op oi isRoot t0 o e ho hn hobj hv
+
+/-! ### the invariant along every history -/
+
+/-- a step of a sequential history on one family: a public call through any handle, a constructor
+call (with or without data), an outside writer replacing a resource's content -/
+inductive SStep where
+  | call (h : Handle) (op : Op)
+  | openObj (isDict : Bool) (res : Nat) (data : Option J)
+  | ext (res : Nat) (d : J)
+
+def sstep (s : State) : SStep → State
+  | .call h op => (call s h op).1
+  | .openObj d r data => (openObj s 0 d r data).1
+  | .ext r d => extWrite s r d
+
+def srun (s : State) (history : List SStep) : State := history.foldl sstep s
+
+theorem famReq_of_table {f : FamInfo} (hf : f ∈ Generated.families) :
+    FamReq (famKeyReq f) (famLeafReq f) f.toFam := by
+  have h := C11_table f hf
+  simp only [FamSpecOK, Bool.and_eq_true, decide_eq_true_eq] at h
+  obtain ⟨⟨⟨⟨⟨_, _⟩, h1⟩, h2⟩, h3⟩, h4⟩ := h
+  exact ⟨⟨h1, h2⟩, ⟨h3, h4⟩⟩
+
+theorem srun_clean {f : FamInfo} (hf : f ∈ Generated.families) (W : J → Prop)
+    (hW : ∀ d : J, Tr.all (famKeyReq f) (famLeafReq f) d = true → W d) :
+    ∀ (history : List SStep) (s : State), s.fams = [f.toFam] →
+      (∀ st ∈ history, ∀ r d, st = .ext r d → W d) →
+      Clean (famKeyReq f) (famLeafReq f) W s →
+      Clean (famKeyReq f) (famLeafReq f) W (srun s history) ∧ (srun s history).fams = [f.toFam]
+  | [], s, hfs, _, h => ⟨h, hfs⟩
+  | st :: rest, s, hfs, hext, h => by
+    have hstep : Clean (famKeyReq f) (famLeafReq f) W (sstep s st) ∧ (sstep s st).fams = [f.toFam] := by
+      cases st with
+      | call hd op =>
+        refine ⟨h.after_call hW hd op, ?_⟩
+        rw [← hfs]
+        exact call_fams s hd op
+      | openObj d r data =>
+        refine ⟨h.after_openObj 0 d r data (by rw [hfs]; exact famReq_of_table hf), ?_⟩
+        rw [← hfs]
+        exact openObj_fams s 0 d r data
+      | ext r d => exact ⟨h.after_ext r d (hext _ (List.mem_cons_self ..) r d rfl), hfs⟩
+    exact srun_clean hf W hW rest _ hstep.2 (fun st' hst' => hext st' (List.mem_cons_of_mem _ hst')) hstep.1
+
+/-- C11 along EVERY history.  Start from the empty state of any family of the current source and
+run any sequence of public calls (every operation, through root objects and through child handles
+at any depth, attached or detached, with any arguments), constructor calls with any data, and
+outside writers that may write ANYTHING (also forbidden data).  At every point the tree of every
+object and every node that ever fell out of a tree contains only keys and leaves the family allows:
+forbidden data never reaches memory — not through an argument, not through a reload of a file
+that holds forbidden data. -/
+theorem C11_memory_clean_after_any_history {f : FamInfo} (hf : f ∈ Generated.families) (history : List SStep) :
+    let s := srun (State.empty [f.toFam]) history
+    (∀ o ∈ s.objs, Tr.all (famKeyReq f) (famLeafReq f) o.root = true) ∧
+    (∀ p ∈ s.detached, Tr.all (famKeyReq f) (famLeafReq f) p.2 = true) := by
+  have h0 : Clean (famKeyReq f) (famLeafReq f) (fun _ => True) (State.empty [f.toFam]) :=
+    ⟨by simp [State.empty], by simp [State.empty], by simp [State.empty], by simp [State.empty]⟩
+  have := (srun_clean hf (fun _ => True) (fun _ _ => trivial) history _ rfl (fun _ _ _ _ _ => trivial) h0).1
+  exact ⟨this.objs, this.det⟩
+
+/-- ... and the backends: if the outside writers (if any) write allowed data only, every backend
+holds allowed data only at every point of every history: what the library writes is never
+forbidden. -/
+theorem C11_backend_clean_after_any_history {f : FamInfo} (hf : f ∈ Generated.families) (history : List SStep)
+    (hext : ∀ st ∈ history, ∀ r d, st = .ext r d → Tr.all (famKeyReq f) (famLeafReq f) d = true) :
+    ∀ p ∈ (srun (State.empty [f.toFam]) history).stores, Tr.all (famKeyReq f) (famLeafReq f) p.2 = true := by
+  have h0 : Clean (famKeyReq f) (famLeafReq f) (fun d => Tr.all (famKeyReq f) (famLeafReq f) d = true) (State.empty [f.toFam]) :=
+    ⟨by simp [State.empty], by simp [State.empty], by simp [State.empty], by simp [State.empty]⟩
+  exact (srun_clean hf _ (fun _ h => h) history _ rfl hext h0).1.stores
 
 end SC.Props
